@@ -53,7 +53,8 @@ def main():
             parser = TracesParser(table, {}, {})
             for k, text in case.get('gstr') or []:
                 parser.global_strings[int(k)] = text
-            evs = [Kevent(i + 1, struct.pack('<QQQQ', *ws), tuple(ws), tid, code | q, code, q)
+            tss = case.get('ts') or [i + 1 for i in range(len(case['events']))]
+            evs = [Kevent(tss[i], struct.pack('<QQQQ', *ws), tuple(ws), tid, code | q, code, q)
                    for i, (code, q, ws, tid) in enumerate(case['events'])]
             try:
                 t = parser.parse_event_list(evs)
